@@ -63,6 +63,11 @@ struct Case {
     /// compare the cost of the returned centroids along the budgets (0 = off)
     #[serde(default)]
     ladder: usize,
+    /// replicated family (kind "replicated"): multiplicity of every row of `data`, row order
+    #[serde(default)]
+    mult: Vec<usize>,
+    #[serde(default)]
+    interleave: bool,
 }
 
 #[derive(Clone, Copy, PartialEq, Debug)]
@@ -157,23 +162,25 @@ fn tie_sets(met: Met, pts: &[Vec<f64>], cent: &[f64], k: usize, d: usize, tie: f
 }
 
 /// cost (sum over points of the minimal reduced distance) of a centroid set
-fn cost(met: Met, pts: &[Vec<f64>], cent: &[f64], k: usize, d: usize) -> f64 {
+/// (`w` = multiplicity of every point; all ones except in the replicated family)
+fn cost(met: Met, pts: &[Vec<f64>], w: &[f64], cent: &[f64], k: usize, d: usize) -> f64 {
     pts.iter()
-        .map(|p| (0..k).map(|c| rd(met, p, &cent[c * d..(c + 1) * d])).fold(f64::INFINITY, f64::min))
+        .zip(w)
+        .map(|(p, &w)| w * (0..k).map(|c| rd(met, p, &cent[c * d..(c + 1) * d])).fold(f64::INFINITY, f64::min))
         .sum()
 }
 
 /// the m_k-means update: every centroid becomes the mean of its assigned points together with
 /// its previous position (an empty cluster keeps its position)
-fn mk_update(pts: &[Vec<f64>], assign: &[u8], old: &[f64], k: usize, d: usize) -> Vec<f64> {
+fn mk_update(pts: &[Vec<f64>], w: &[f64], assign: &[u8], old: &[f64], k: usize, d: usize) -> Vec<f64> {
     let mut sum = old.to_vec();
     let mut cntv = vec![1.0f64; k];
-    for (p, &a) in pts.iter().zip(assign) {
+    for ((p, &a), &w) in pts.iter().zip(assign).zip(w) {
         let a = a as usize;
         for j in 0..d {
-            sum[a * d + j] += p[j];
+            sum[a * d + j] += w * p[j];
         }
-        cntv[a] += 1.0;
+        cntv[a] += w;
     }
     for c in 0..k {
         for j in 0..d {
@@ -201,7 +208,7 @@ const MAX_LEVEL_STATES: usize = 20000;
 /// For the L1 metric the criterion may be evaluated with the metric's own matrix distance (what
 /// the code does) or with the euclidean one (what the rustdoc says): both are admitted.
 /// `None` = tie explosion (the trajectory oracle is then skipped for the case and counted).
-fn ref_step(s: &RState, pts: &[Vec<f64>], k: usize, d: usize, met: Met, num: &Num, tol: f64, cnt: &mut Cnt) -> Option<Vec<RState>> {
+fn ref_step(s: &RState, pts: &[Vec<f64>], w: &[f64], k: usize, d: usize, met: Met, num: &Num, tol: f64, cnt: &mut Cnt) -> Option<Vec<RState>> {
     if s.stopped {
         return Some(vec![s.clone()]);
     }
@@ -221,7 +228,7 @@ fn ref_step(s: &RState, pts: &[Vec<f64>], k: usize, d: usize, met: Met, num: &Nu
     let mut idx = vec![0usize; n];
     loop {
         let assign: Vec<u8> = (0..n).map(|i| ts[i][idx[i]]).collect();
-        let new = mk_update(pts, &assign, &s.cur, k, d);
+        let new = mk_update(pts, w, &assign, &s.cur, k, d);
         let mut can_stop = false;
         let mut can_run = false;
         let mut crits = vec![mat_dist(met, &s.cur, &new)];
@@ -284,31 +291,33 @@ fn dedup_states(v: Vec<RState>) -> Vec<RState> {
 }
 
 /// Is `counts` the histogram of SOME nearest-centroid assignment (ties may go either way)?
-fn feasible_histogram(ts: &[Vec<u8>], counts: &[i64]) -> bool {
+/// Copies of one point (multiplicity `w`) are identical rows: they all go to the same centroid.
+fn feasible_histogram(ts: &[Vec<u8>], w: &[f64], counts: &[i64]) -> bool {
     let mut need = counts.to_vec();
-    let mut flex: Vec<&Vec<u8>> = Vec::new();
-    for t in ts {
+    let mut flex: Vec<(&Vec<u8>, i64)> = Vec::new();
+    for (t, &w) in ts.iter().zip(w) {
         if t.len() == 1 {
-            need[t[0] as usize] -= 1;
+            need[t[0] as usize] -= w as i64;
         } else {
-            flex.push(t);
+            flex.push((t, w as i64));
         }
     }
     if need.iter().any(|&x| x < 0) {
         return false;
     }
-    fn rec(flex: &[&Vec<u8>], i: usize, need: &mut Vec<i64>) -> bool {
+    fn rec(flex: &[(&Vec<u8>, i64)], i: usize, need: &mut Vec<i64>) -> bool {
         if i == flex.len() {
             return need.iter().all(|&x| x == 0);
         }
-        for &c in flex[i].iter() {
-            if need[c as usize] > 0 {
-                need[c as usize] -= 1;
+        let wi = flex[i].1;
+        for &c in flex[i].0.iter() {
+            if need[c as usize] >= wi {
+                need[c as usize] -= wi;
                 if rec(flex, i + 1, need) {
-                    need[c as usize] += 1;
+                    need[c as usize] += wi;
                     return true;
                 }
-                need[c as usize] += 1;
+                need[c as usize] += wi;
             }
         }
         false
@@ -322,14 +331,14 @@ fn feasible_histogram(ts: &[Vec<u8>], counts: &[i64]) -> bool {
 /// key: (bits of the returned centroids, full search?)
 type PredCache = HashMap<(Vec<u64>, bool), Vec<(Vec<f64>, Vec<u8>)>>;
 
-fn predecessors_pass(met: Met, pts: &[Vec<f64>], ret: &[f64], k: usize, d: usize, num: &Num, hint: Option<&[i64]>) -> Vec<(Vec<f64>, Vec<u8>)> {
+fn predecessors_pass(met: Met, pts: &[Vec<f64>], w: &[f64], ret: &[f64], k: usize, d: usize, num: &Num, hint: Option<&[i64]>) -> Vec<(Vec<f64>, Vec<u8>)> {
     let n = pts.len();
     let total = (k as u64).checked_pow(n as u32).unwrap_or(u64::MAX);
     let mut out = Vec::new();
     if total > 70_000 {
         return out;
     }
-    let loose = num.tie * (n as f64 + 2.0);
+    let loose = num.tie * (w.iter().sum::<f64>() + 2.0);
     let mut assign = vec![0u8; n];
     let mut hist = vec![0i64; k];
     for code in 0..total {
@@ -339,7 +348,7 @@ fn predecessors_pass(met: Met, pts: &[Vec<f64>], ret: &[f64], k: usize, d: usize
         }
         for i in 0..n {
             assign[i] = (c % k as u64) as u8;
-            hist[assign[i] as usize] += 1;
+            hist[assign[i] as usize] += w[i] as i64;
             c /= k as u64;
         }
         if let Some(h) = hint {
@@ -349,17 +358,17 @@ fn predecessors_pass(met: Met, pts: &[Vec<f64>], ret: &[f64], k: usize, d: usize
         }
         let mut p: Vec<f64> = ret.to_vec();
         let mut cn = vec![1.0f64; k];
-        for &a in &assign {
-            cn[a as usize] += 1.0;
+        for (&a, &w) in assign.iter().zip(w) {
+            cn[a as usize] += w;
         }
         for c in 0..k {
             for j in 0..d {
                 p[c * d + j] *= cn[c];
             }
         }
-        for (x, &a) in pts.iter().zip(&assign) {
+        for ((x, &a), &w) in pts.iter().zip(&assign).zip(w) {
             for j in 0..d {
-                p[a as usize * d + j] -= x[j];
+                p[a as usize * d + j] -= w * x[j];
             }
         }
         let ok = pts.iter().zip(&assign).all(|(x, &a)| {
@@ -482,8 +491,12 @@ fn fit_once<F: Float, D: Distance<F>, R: rand::Rng + Clone>(
 
 struct Env<'a, F: Float> {
     case: &'a Case,
+    /// the array that is fitted (every row; replicated family: case.data[i] repeated case.mult[i] times)
     data: Array2<F>,
+    /// the distinct training rows (== data except in the replicated family), their f64 image and multiplicities
+    train: Array2<F>,
     pts: Vec<Vec<f64>>,
+    w: Vec<f64>,
     queries: Array2<F>,
     q64: Vec<Vec<f64>>,
     met: Met,
@@ -656,7 +669,7 @@ fn check_model<F: Float, D: Distance<F>>(
     }
     // ---- reported inertia describes the returned centroids
     let ts = tie_sets(met, &env.pts, &obs.flat, k, d, num.tie);
-    let want = cost(met, &env.pts, &obs.flat, k, d) / n as f64;
+    let want = cost(met, &env.pts, &env.w, &obs.flat, k, d) / n as f64;
     // candidates for "the state one update earlier" (triage only). `full == false`: the states of
     // the reference trajectory when known, else only assignments whose histogram equals the
     // reported counts (cheap, and the answer when inertia and counts lag together);
@@ -671,7 +684,7 @@ fn check_model<F: Float, D: Distance<F>>(
         if !pcache.contains_key(&key) {
             cnt.add("predecessor_searches_for_triage", 1);
             let hint: Vec<i64> = obs.counts.iter().map(|&c| c.round() as i64).collect();
-            let r = predecessors_pass(met, &env.pts, &obs.flat, k, d, num, if full { None } else { Some(&hint) });
+            let r = predecessors_pass(met, &env.pts, &env.w, &obs.flat, k, d, num, if full { None } else { Some(&hint) });
             pcache.insert(key.clone(), r);
         }
         pcache[&key].clone()
@@ -683,7 +696,7 @@ fn check_model<F: Float, D: Distance<F>>(
     } else if !close(obs.inertia, want, num.rel, num.tie) {
         let lag_of = |ps: &Vec<(Vec<f64>, Vec<u8>)>| -> Vec<f64> {
             ps.iter()
-                .map(|(p, a)| env.pts.iter().zip(a).map(|(x, &c)| rd(met, x, &p[c as usize * d..(c as usize + 1) * d])).sum::<f64>() / n as f64)
+                .map(|(p, a)| env.pts.iter().zip(a).zip(&env.w).map(|((x, &c), &w)| w * rd(met, x, &p[c as usize * d..(c as usize + 1) * d])).sum::<f64>() / n as f64)
                 .collect()
         };
         let mut lagged = lag_of(&preds(cnt, false));
@@ -717,11 +730,11 @@ fn check_model<F: Float, D: Distance<F>>(
             format!("cluster_count {:?} for n = {}", obs.counts, n),
             env.cj(at.clone()),
         ));
-    } else if !feasible_histogram(&ts, &ints) {
+    } else if !feasible_histogram(&ts, &env.w, &ints) {
         let hist_of = |a: &Vec<u8>| -> Vec<i64> {
             let mut h = vec![0i64; k];
-            for &c in a {
-                h[c as usize] += 1;
+            for (&c, &w) in a.iter().zip(&env.w) {
+                h[c as usize] += w as i64;
             }
             h
         };
@@ -761,7 +774,7 @@ fn check_model<F: Float, D: Distance<F>>(
         cnt.add("fits_reporting_an_empty_cluster", 1);
     }
     // ---- predict / transform
-    check_assign(env, model, obs, &env.data, &env.pts, "training", at, viols, cnt);
+    check_assign(env, model, obs, &env.train, &env.pts, "training", at, viols, cnt);
     if with_queries {
         check_assign(env, model, obs, &env.queries, &env.q64, "new", at, viols, cnt);
     }
@@ -769,10 +782,32 @@ fn check_model<F: Float, D: Distance<F>>(
 }
 
 fn make_env<'a, F: Float>(case: &'a Case, met: Met, extra: &[Vec<f64>]) -> Env<'a, F> {
-    let n = case.data.len();
     let d = case.data[0].len();
-    let data: Array2<F> = arr(&case.data, d);
-    let pts = rows64(&data);
+    let train: Array2<F> = arr(&case.data, d);
+    let pts = rows64(&train);
+    let (data, w): (Array2<F>, Vec<f64>) = if case.mult.is_empty() {
+        (train.clone(), vec![1.0; pts.len()])
+    } else {
+        // row order: contiguous blocks per point, or round-robin over the points that still have copies left
+        let mut order: Vec<usize> = Vec::new();
+        if case.interleave {
+            let mut left = case.mult.clone();
+            while left.iter().any(|&l| l > 0) {
+                for (i, l) in left.iter_mut().enumerate() {
+                    if *l > 0 {
+                        order.push(i);
+                        *l -= 1;
+                    }
+                }
+            }
+        } else {
+            for (i, &m) in case.mult.iter().enumerate() {
+                order.extend(std::iter::repeat(i).take(m));
+            }
+        }
+        (Array2::from_shape_fn((order.len(), d), |(r, j)| train[(order[r], j)]), case.mult.iter().map(|&m| m as f64).collect())
+    };
+    let n = data.nrows();
     let queries: Array2<F> = arr(&case.queries, d);
     let q64 = rows64(&queries);
     let num = Num::new(case.float == "f32", met, &pts, extra, n, d, case.k);
@@ -784,7 +819,7 @@ fn make_env<'a, F: Float>(case: &'a Case, met: Met, extra: &[Vec<f64>]) -> Env<'
             hi[j] = hi[j].max(p[j]);
         }
     }
-    Env { case, data, pts, queries, q64, met, num, n, d, k: case.k, lo, hi }
+    Env { case, data, train, pts, w, queries, q64, met, num, n, d, k: case.k, lo, hi }
 }
 
 fn nontrivial(env_pts: &[Vec<f64>], k: usize) -> bool {
@@ -823,7 +858,7 @@ fn run_traj<F: Float, D: Distance<F>>(case: &Case, dist: D, met: Met, viols: &mu
     for _m in 1..=m_max + 1 {
         let mut next = Vec::new();
         for s in levels.last().unwrap() {
-            match ref_step(s, &env.pts, k, env.d, met, &env.num, case.tol, &mut cnt) {
+            match ref_step(s, &env.pts, &env.w, k, env.d, met, &env.num, case.tol, &mut cnt) {
                 Some(v) => {
                     if _m <= m_max {
                         cnt.add("ref_transitions", v.len() as u64);
@@ -876,7 +911,7 @@ fn run_traj<F: Float, D: Distance<F>>(case: &Case, dist: D, met: Met, viols: &mu
     let mut prev_costs: [Option<(usize, f64)>; 4] = [None; 4];
     let mut pcache: PredCache = HashMap::new();
     for m in 1..=m_max {
-      for n_runs in 1..=3usize {
+      for n_runs in 1..=(if case.kind == "replicated" { 1 } else { 3usize }) {
         let prev_cost = &mut prev_costs[n_runs];
         cnt.add("fits", 1);
         if n_runs > 1 {
@@ -949,7 +984,7 @@ fn run_traj<F: Float, D: Distance<F>>(case: &Case, dist: D, met: Met, viols: &mu
         );
         // ---- cost of the returned centroids never increases with the budget (theorem for L2)
         if ok && met == Met::L2 {
-            let c = cost(met, &env.pts, &obs.flat, k, env.d);
+            let c = cost(met, &env.pts, &env.w, &obs.flat, k, env.d);
             if let Some((pm, pc)) = *prev_cost {
                 cnt.add("budget_pairs_cost_compared", 1);
                 if c < pc - env.n as f64 * env.num.tie {
@@ -1084,7 +1119,7 @@ fn run_seeded<F: Float, D: Distance<F>>(case: &Case, dist: D, met: Met, viols: &
                         if !check_model(&env, &model, &obs, &at, true, None, None, false, &mut pcache, viols, &mut cnt) {
                             continue;
                         }
-                        let c = cost(met, &env.pts, &obs.flat, k, env.d);
+                        let c = cost(met, &env.pts, &env.w, &obs.flat, k, env.d);
                         if let Some((pm, pc)) = prev {
                             cnt.add("seeded_budget_pairs_cost_compared", 1);
                             if c < pc - env.n as f64 * env.num.tie {
@@ -1113,7 +1148,7 @@ fn run_seeded<F: Float, D: Distance<F>>(case: &Case, dist: D, met: Met, viols: &
 
 fn run_case(case: &Case, viols: &mut Vec<Violation>) -> Cnt {
     fn go<F: Float, D: Distance<F>>(case: &Case, dist: D, met: Met, viols: &mut Vec<Violation>) -> Cnt {
-        if case.kind == "trajectory" {
+        if case.kind == "trajectory" || case.kind == "replicated" {
             run_traj::<F, D>(case, dist, met, viols)
         } else {
             run_seeded::<F, D>(case, dist, met, viols)
@@ -1235,6 +1270,7 @@ fn main() {
          trajectory cases = dataset x float x metric x k x Precomputed start (EVERY distinct k-sub-multiset of the data rows + 2 off-data starts, one with a permanently empty cluster) x tolerance {{1e-4,1e-2}}; \
          per case the real fit runs with max_n_iterations(m) and n_runs(1), n_runs(2), n_runs(3) (same start for every restart, so the same answer is demanded) for every m = 1..={b} and is compared with the set of states the reference m_k-means step reaches after m transitions (ties branch). \
          seeded cases = dataset (id image; all images for n<=3) x float x metric x k x {{random, kmeans++, kmeans||}} x seed 0..{s} x iteration cap {caps:?}, tolerance 1e-4; per case single-restart fits of restart 1..={r} and fits with n_runs = 2..={r} from the same seed; for L2 and every (dataset, initialiser, seed) additionally fits with n_runs in {{2, {r}}} for every budget 1..={lad}, cost of the returned centroids compared along the budgets. \
+         replicated cases = every set of 2..3 distinct points of {{0..4}} (1-D) and of {{(0,0),(0,1),(1,0),(1,1),(2,2)}} (2-D) under the images id and +1e3, every point repeated so that n is one of {{1024, 1025, 2049, 3000}} (thorough: also 1023, 2048, 4097; remainder to the first point), rows contiguous per point or round-robin, f64, L2 (thorough: + L1), k = 1..min(p,3), every k-subset of the distinct points as Precomputed start, budgets 1..=3, n_runs(1): same lock-step oracle with the reference step working on (point, multiplicity) pairs (copies of a point are identical rows and go to the same centroid), predict / transform on the distinct points. \
          evaluations = fits of the real code; non-trivial = fits with k >= 2 on data with >= 2 distinct rows; every fitted model additionally gets predict (batch, single row) / transform evaluations on its training rows and on the lattice + half-lattice + far query points (first and last fit of a case). \
          states / transitions = distinct reference states (centroid set, stopped flag) per level / reference steps.",
         lad = ladder, n1 = n1_max, n1a = n1_all_images, n2 = n2_max, k = k_max, b = budgets, s = seeds, caps = iter_caps, r = max_runs
@@ -1308,6 +1344,8 @@ fn main() {
                                     // step, so the budget stays at the quick bound there
                                     budgets: if float == "f32" && img == "off1e3" { budgets.min(6) } else { budgets },
                                     ladder: 0,
+                                    mult: vec![],
+                                    interleave: false,
                                     init_kind: String::new(),
                                     seed: 0,
                                     max_runs: 0,
@@ -1338,6 +1376,8 @@ fn main() {
                                             max_runs,
                                             max_iter: cap,
                                             ladder: if cap == iter_caps[0] && metric == "L2" { ladder } else { 0 },
+                                            mult: vec![],
+                                            interleave: false,
                                         });
                                         n_seeded += 1;
                                     }
@@ -1349,6 +1389,64 @@ fn main() {
             }
         }
     }
+    // ---------------- replicated family: few distinct points, n just below / at / above multiples of 1024
+    // (an update step that works block-wise, chunk-wise or in parallel reductions must still count the
+    // previous centroid exactly once). Reference = the same m_k-means step on (point, multiplicity) pairs.
+    let mut n_repl = 0u64;
+    {
+        let mut bases: Vec<(String, Vec<Vec<f64>>, usize)> = Vec::new();
+        for ss in en::subsets_upto(5, 2, 3) {
+            bases.push(("1d_set".into(), ss.iter().map(|&i| vec![i as f64]).collect(), 1));
+        }
+        let pool2: Vec<Vec<f64>> = vec![vec![0.0, 0.0], vec![0.0, 1.0], vec![1.0, 0.0], vec![1.0, 1.0], vec![2.0, 2.0]];
+        for ss in en::subsets_upto(5, 2, 3) {
+            bases.push(("2d_set".into(), ss.iter().map(|&i| pool2[i].clone()).collect(), 2));
+        }
+        let totals: Vec<usize> = if thorough { vec![1023, 1024, 1025, 2048, 2049, 3000, 4097] } else { vec![1024, 1025, 2049, 3000] };
+        let metrics: Vec<&str> = if thorough { vec!["L2", "L1"] } else { vec!["L2"] };
+        for (fam, base, dim) in &bases {
+            let p = base.len();
+            for img in ["id", "off1e3"] {
+                let map = |rows: &Vec<Vec<f64>>| -> Vec<Vec<f64>> { rows.iter().map(|r| r.iter().map(|&x| image(img, x)).collect()).collect() };
+                for &total in &totals {
+                    // every point total / p copies, the remainder goes to the first point
+                    let mut mult = vec![total / p; p];
+                    mult[0] += total % p;
+                    for interleave in [false, true] {
+                        for metric in &metrics {
+                            for k in 1..=p.min(3) {
+                                for sub in en::k_subsets(p, k) {
+                                    let init: Vec<Vec<f64>> = sub.iter().map(|&i| base[i].clone()).collect();
+                                    cases.push(Case {
+                                        kind: "replicated".into(),
+                                        family: format!("{}x{}/{}", fam, total, img),
+                                        data: map(base),
+                                        float: "f64".into(),
+                                        metric: metric.to_string(),
+                                        k,
+                                        tol: 1e-4,
+                                        queries: map(&base_queries(*dim)),
+                                        init: map(&init),
+                                        init_from_data: true,
+                                        budgets: 3,
+                                        init_kind: String::new(),
+                                        seed: 0,
+                                        max_runs: 0,
+                                        max_iter: 0,
+                                        ladder: 0,
+                                        mult: mult.clone(),
+                                        interleave,
+                                    });
+                                    n_repl += 1;
+                                }
+                            }
+                        }
+                    }
+                }
+            }
+        }
+    }
+    ctx.extra("cases_replicated", json!(n_repl));
     ctx.extra("cases_enumerated", json!(cases.len()));
     ctx.extra("cases_trajectory", json!(n_traj));
     ctx.extra("cases_seeded", json!(n_seeded));
@@ -1385,7 +1483,7 @@ fn main() {
                         *local_time.entry(key).or_insert(0) += us;
                     }
                     ctx.evals(cnt.get("fits"), cnt.get("fits_nontrivial"));
-                    if c.kind == "trajectory" {
+                    if c.kind != "seeded" {
                         ctx.add_states(cnt.get("ref_states"), cnt.get("ref_transitions"), cnt.get("trajectory_points_compared"));
                     }
                     for _ in 0..cnt.get("trajectory_oracle_skipped_tie_explosion") {
@@ -1403,7 +1501,7 @@ fn main() {
                     done.fetch_add(1, Ordering::Relaxed);
                     ctx.sample(|| {
                         json!({"kind": c.kind, "family": c.family, "data": c.data, "float": c.float, "metric": c.metric, "k": c.k, "tol": c.tol,
-                               "init": c.init, "init_kind": c.init_kind, "seed": c.seed, "max_iter": c.max_iter, "budgets": c.budgets, "max_runs": c.max_runs})
+                               "init": c.init, "init_kind": c.init_kind, "seed": c.seed, "max_iter": c.max_iter, "budgets": c.budgets, "max_runs": c.max_runs, "mult": c.mult, "interleave": c.interleave})
                     });
                 }
                 {
